@@ -32,3 +32,27 @@ package bft
 //@   ensures[sameview] result == nil ==> viewSame(x.VoteA.Header, x.VoteB.Header)
 //@   ensures[differ] result == nil ==> signBytesOf(x.VoteA) != signBytesOf(x.VoteB)
 //@   ensures[phase] result == nil ==> x.VoteA.Header.Phase > Propose
+
+// ---- C19: what a consensus message's signer signs ------------------------------------------------------
+// a leader's message hands the encoder an object that agrees with the message on every field except the
+// certificate's block and results (locked in by BlockHash/ResultsHash) and the unsigned envelope fields
+// (Vdf, Signature, Timestamp, RcBuildHeight); a pacemaker message signs its certificate's view
+//@ spec func isProposerMsg(x *Message) bool = x.Header != nil && (x.Header.Phase == Election || x.Header.Phase == Propose || x.Header.Phase == Precommit || x.Header.Phase == Commit)
+//@ spec func isReplicaMsg(x *Message) bool = x.Qc != nil && x.Qc.Header != nil && x.Header == nil && (x.Qc.Header.Phase == ElectionVote || x.Qc.Header.Phase == ProposeVote || x.Qc.Header.Phase == PrecommitVote)
+//@ func (*Message).IsProposerMessage
+//@   pure
+//@   ensures[def] result == isProposerMsg(x)
+//@ func (*Message).IsReplicaMessage
+//@   pure
+//@   ensures[def] result == isReplicaMsg(x)
+//@ func (*Message).IsPacemakerMessage
+//@   pure
+//@   ensures[def] result == (x.Qc != nil && x.Qc.Header != nil && x.Qc.Header.Phase == RoundInterrupt)
+// (the replica case builds a fresh certificate and defers to QuorumCertificate.SignBytes, which strips
+// and restores fields of the object it is given: hence the certificate fields in the frame)
+//@ func (*Message).SignBytes
+//@   requires x != nil
+//@   nopanic
+//@   modifies lib.QuorumCertificate.*
+//@   ensures[restores] x.Qc != nil ==> unchanged(x.Qc.Header, x.Qc.Block, x.Qc.BlockHash, x.Qc.ResultsHash, x.Qc.Results, x.Qc.ProposerKey, x.Qc.Signature)
+//@   callsite Marshal requires[covers] isProposerMsg(x) ? (samefields(x, dyn(arg0, *Message), Qc, Vdf, Signature, Timestamp, RcBuildHeight) && (x.Qc == nil ? dyn(arg0, *Message).Qc == nil : (dyn(arg0, *Message).Qc != nil && samefields(x.Qc, dyn(arg0, *Message).Qc, Block, Results)))) : (dyn(arg0, *Message).Qc != nil && dyn(arg0, *Message).Qc.Header == x.Qc.Header)
